@@ -73,3 +73,53 @@ pub fn disconnected_handle() -> SyncHandle {
     drop(rx);
     SyncHandle { tx, join_handle: Arc::new(None), metrics: Arc::new(Metrics::default()) }
 }
+
+/// Native witness for the E3 query c14_open_close: a battery of concrete open/close sequences on the
+/// real `OpenReplicas`, compared with the specification.  Returns true if any sequence misbehaves.
+#[cfg(not(kani))]
+pub fn witness_c14() -> bool {
+    let ns = NamespaceId::from(&[1u8; 32]);
+    let mk = || -> Result<ReplicaInfo> { Ok(ReplicaInfo::new(Capability::Read(ns))) };
+    let mut bad = Vec::new();
+    // close of a document that is not open reports "closed"
+    let mut st = OpenReplicas::default();
+    if !st.close(ns) {
+        bad.push("close of a not-open document returned false");
+    }
+    // open(sync), open(), sync stays on; handles count 2 -> 1 -> 0
+    st.open_with(ns, OpenOpts { sync: true, subscribe: None }, mk).unwrap();
+    st.open_with(ns, OpenOpts { sync: false, subscribe: None }, mk).unwrap();
+    match st.get_mut(&ns) {
+        Ok(r) => {
+            if !r.sync {
+                bad.push("sync was reset by an additional open without sync");
+            }
+            if r.handles != 2 {
+                bad.push("two opens do not hold two handles");
+            }
+        }
+        Err(_) => bad.push("document not open after two opens"),
+    }
+    if st.close(ns) {
+        bad.push("close with a handle remaining reported closed");
+    }
+    if !st.is_open(&ns) {
+        bad.push("document closed while a handle remains");
+    }
+    if !st.close(ns) {
+        bad.push("closing the last handle did not report closed");
+    }
+    if st.is_open(&ns) {
+        bad.push("document still open after its last handle was closed");
+    }
+    // open(), open(sync): sync turns on
+    st.open_with(ns, OpenOpts { sync: false, subscribe: None }, mk).unwrap();
+    st.open_with(ns, OpenOpts { sync: true, subscribe: None }, mk).unwrap();
+    if !st.get_mut(&ns).map(|r| r.sync).unwrap_or(false) {
+        bad.push("sync not enabled by a later open with sync");
+    }
+    for b in &bad {
+        eprintln!("c14: {b}");
+    }
+    !bad.is_empty()
+}
